@@ -78,28 +78,129 @@ func (lc *lisConn) recv(d time.Duration) ([]byte, error) {
 	return buf[:n], err
 }
 
-func runListener(c *lisCase) (*lisObs, string) {
+// runAcceptRace: TCP connections are dialled WHILE the server shuts down: whichever of them the listener has accepted is
+// closed by the broker (C20 "every open connection is closed"); one the kernel still held is reset by closing the listener
+func runAcceptRace() (*stallObs, string) {
+	obs := &stallObs{OK: true, Closed: true}
+	for round := 0; round < 400; round++ {
+		lo, srv, cleanup, msg := newLisServer()
+		if msg != "" {
+			return lo2stall(lo), msg
+		}
+		tcpPort := freePort()
+		if err := srv.ListenAndServe(transport.NewConfigTCP(&transport.Config{AuthManager: cleanup.am, Host: "127.0.0.1", Port: tcpPort})); err != nil {
+			cleanup.f()
+			return obs, "tcp listener: " + err.Error()
+		}
+		// wait for the listener
+		for k := 0; k < 100; k++ {
+			if cn, err := net.DialTimeout("tcp", "127.0.0.1:"+tcpPort, 200*time.Millisecond); err == nil {
+				_ = cn.Close()
+				break
+			}
+			time.Sleep(10 * time.Millisecond)
+		}
+		time.Sleep(20 * time.Millisecond)
+		var mu sync.Mutex
+		var got []net.Conn
+		var wg sync.WaitGroup
+		start := make(chan struct{})
+		wg.Add(1)
+		go func() { // ONE connection, dialled around the moment the shutdown begins: the listener is idle in Accept
+			defer wg.Done()
+			<-start
+			time.Sleep(time.Duration(round%16) * 10 * time.Microsecond)
+			if cn, err := net.DialTimeout("tcp", "127.0.0.1:"+tcpPort, 100*time.Millisecond); err == nil {
+				mu.Lock()
+				got = append(got, cn)
+				mu.Unlock()
+			}
+		}()
+		done := make(chan struct{})
+		close(start)
+		time.Sleep(time.Duration(round/16%10) * 10 * time.Microsecond)
+		go func() { _ = srv.Shutdown(); close(done) }()
+		select {
+		case <-done:
+		case <-time.After(10 * time.Second):
+			obs.Closed = false
+		}
+		wg.Wait()
+		open := 0
+		for _, cn := range got {
+			closed := false
+			dl := time.Now().Add(2500 * time.Millisecond) // the connect timeout is 1 s (x 1.5)
+			buf := make([]byte, 16)
+			for time.Now().Before(dl) && !closed {
+				_ = cn.SetReadDeadline(time.Now().Add(250 * time.Millisecond))
+				if _, err := cn.Read(buf); err != nil {
+					if ne, ok := err.(net.Error); ok && ne.Timeout() {
+						continue
+					}
+					closed = true
+				}
+			}
+			if !closed {
+				// nothing has come: either the broker holds the socket and serves nobody on it, or the kernel dropped a
+				// connection nobody had accepted when the listener was closed, without a word - then a write is answered
+				// by a reset
+				_, _ = cn.Write([]byte{0xC0, 0x00})
+				_ = cn.SetReadDeadline(time.Now().Add(time.Second))
+				if _, err := cn.Read(buf); err != nil {
+					if ne, ok := err.(net.Error); !ok || !ne.Timeout() {
+						closed = true
+					}
+				}
+			}
+			if !closed {
+				open++
+			}
+			_ = cn.Close()
+		}
+		cleanup.f()
+		if open > 0 {
+			obs.OK = false
+			return obs, fmt.Sprintf("round %d: %d of %d connections established while the server was shutting down were never closed by it", round, open, len(got))
+		}
+		if !obs.Closed {
+			return obs, "Shutdown did not return"
+		}
+	}
+	return obs, ""
+}
+
+func lo2stall(*lisObs) *stallObs { return &stallObs{} }
+
+type lisCleanup struct {
+	am *auth.Manager
+	f  func()
+}
+
+func newLisServer() (*lisObs, server.Server, lisCleanup, string) {
 	obs := &lisObs{Closed: []bool{}}
+	var cl lisCleanup
+	cl.f = func() {}
 	persist, err := persistenceMem.Load(nil, nil)
 	if err != nil {
-		return obs, err.Error()
+		return obs, nil, cl, err.Error()
 	}
 	authRegMu.Lock()
 	name := fmt.Sprintf("verif-auth-%d", nextAuthSeq())
 	if err := auth.Register(name, &progAuth{}); err != nil {
 		authRegMu.Unlock()
-		return obs, err.Error()
+		return obs, nil, cl, err.Error()
 	}
 	am, err := auth.NewManager([]string{name})
 	authRegMu.Unlock()
 	if err != nil {
-		return obs, err.Error()
+		return obs, nil, cl, err.Error()
 	}
-	defer func() {
+	cl.am = am
+	cl.f = func() {
 		authRegMu.Lock()
 		auth.UnRegister(name)
 		authRegMu.Unlock()
-	}()
+	}
 	var mc configuration.MqttConfig
 	mc.Version = []string{"v3.1", "v3.1.1", "v5.0"}
 	mc.Options.ConnectTimeout = 1
@@ -118,8 +219,18 @@ func runListener(c *lisCase) (*lisObs, string) {
 		Metrics:         metrics.New(),
 	})
 	if err != nil {
-		return obs, "NewServer: " + err.Error()
+		return obs, nil, cl, "NewServer: " + err.Error()
 	}
+	return obs, srv, cl, ""
+}
+
+func runListener(c *lisCase) (*lisObs, string) {
+	obs, srv, cleanup, msg := newLisServer()
+	if msg != "" {
+		return obs, msg
+	}
+	defer cleanup.f()
+	am := cleanup.am
 	tcpPort, wsPort := freePort(), freePort()
 	if err := srv.ListenAndServe(transport.NewConfigTCP(&transport.Config{AuthManager: am, Host: "127.0.0.1", Port: tcpPort})); err != nil {
 		return obs, "tcp listener: " + err.Error()
@@ -319,13 +430,30 @@ func runStalled(kind int) (*stallObs, string) {
 		return runWillRetained(kind - 5)
 	}
 	if kind == 8 {
-		return runWillAfterInvalidDisconnect()
+		return runWillAfterInvalidDisconnect(0)
+	}
+	if kind == 19 || kind == 20 {
+		return runWillRetained(kind - 16)
+	}
+	if kind == 17 || kind == 18 {
+		return runWillAfterInvalidDisconnect(kind - 16)
 	}
 	if kind == 9 {
 		return runBusyTakeover()
 	}
 	if kind == 10 {
 		return runShutdownUnderTraffic()
+	}
+	if kind == 15 {
+		return runAcceptRace()
+	}
+	if kind == 16 {
+		return runExpiryDuringStop()
+	}
+	ver := mqttp.ProtocolV311
+	if kind == 13 || kind == 14 { // 11/12 with an MQTT 5 client: the broker also has a DISCONNECT to write to it
+		ver = mqttp.ProtocolV50
+		kind -= 2
 	}
 	obs := &stallObs{}
 	b, err := NewBroker(BrokerOpts{Preempt: true})
@@ -342,17 +470,17 @@ func runStalled(kind int) (*stallObs, string) {
 	if !w.WaitFor(5*time.Second, func() bool { return len(w.Others) >= 1 }) {
 		return obs, "watcher: no suback"
 	}
-	will := mqttp.NewPublish(mqttp.ProtocolV311)
+	will := mqttp.NewPublish(ver)
 	_ = will.Set("will/st", []byte{1}, 0, false, false)
 	c := b.DialCap(64)
 	ka := 0
 	if kind == 2 {
 		ka = 1
 	}
-	if _, err := c.Connect(ConnectOpts{ID: "st", Ver: mqttp.ProtocolV311, Clean: true, KeepAlive: uint16(ka), Will: will}); err != nil {
+	if _, err := c.Connect(ConnectOpts{ID: "st", Ver: ver, Clean: true, KeepAlive: uint16(ka), Will: will}); err != nil {
 		return obs, "connect: " + err.Error()
 	}
-	_ = c.Send(mkSubscribe(mqttp.ProtocolV311, 9, []string{"t"}, []byte{0}))
+	_ = c.Send(mkSubscribe(ver, 9, []string{"t"}, []byte{0}))
 	if pk, err := c.Recv(5 * time.Second); err != nil || pk.Type() != mqttp.SUBACK {
 		return obs, "no suback"
 	}
@@ -368,13 +496,13 @@ func runStalled(kind int) (*stallObs, string) {
 	time.Sleep(200 * time.Millisecond)
 	if kind == 11 || kind == 12 {
 		// the stalled client says DISCONNECT (its sending direction is free) and goes on neither reading nor closing
-		_ = c.Send(mqttp.NewDisconnect(mqttp.ProtocolV311))
+		_ = c.Send(mqttp.NewDisconnect(ver))
 		time.Sleep(100 * time.Millisecond)
 	}
 	switch kind {
 	case 0, 11:
 		c2 := b.Dial()
-		_, err := c2.Connect(ConnectOpts{ID: "st", Ver: mqttp.ProtocolV311, Clean: true})
+		_, err := c2.Connect(ConnectOpts{ID: "st", Ver: ver, Clean: true})
 		obs.OK = err == nil
 	case 1, 12:
 		atomic.StoreInt32(&b.mgrDown, 1)
@@ -409,6 +537,62 @@ func runStalled(kind int) (*stallObs, string) {
 			obs.Closed = true
 			break
 		}
+	}
+	return obs, ""
+}
+
+// runExpiryDuringStop: many MQTT 5 sessions (expiry interval 1 s, three subscriptions each) have ended their connections
+// together; the broker is stopped at the moment their expiry timers fire: Stop returns (C20), whichever of the two - the
+// timer or Stop - gets to a session first
+func runExpiryDuringStop() (obs *stallObs, msg string) {
+	obs = &stallObs{OK: true, Closed: true}
+	for round := 0; round < 5; round++ {
+		b, err := NewBroker(BrokerOpts{})
+		if err != nil {
+			return obs, err.Error()
+		}
+		one := uint32(1)
+		var cls []*Client
+		for i := 0; i < 300; i++ {
+			cl := b.Dial()
+			if _, err := cl.Connect(ConnectOpts{ID: fmt.Sprintf("e%d", i), Ver: mqttp.ProtocolV50, Clean: true, Expiry: &one}); err != nil {
+				return obs, "connect: " + err.Error()
+			}
+			_ = cl.Send(mkSubscribe(mqttp.ProtocolV50, 1, []string{fmt.Sprintf("a/%d", i), fmt.Sprintf("b/%d/#", i), "c/+"}, []byte{0, 1, 2}))
+			if pk, err := cl.Recv(5 * time.Second); err != nil || pk.Type() != mqttp.SUBACK {
+				return obs, "no suback"
+			}
+			cls = append(cls, cl)
+		}
+		t0 := time.Now()
+		for _, cl := range cls {
+			cl.Close()
+		}
+		time.Sleep(time.Until(t0.Add(time.Second + time.Duration(round*6)*time.Millisecond)))
+		atomic.StoreInt32(&b.mgrDown, 1)
+		done := make(chan string, 1)
+		go func() {
+			defer func() {
+				if r := recover(); r != nil {
+					done <- fmt.Sprint("Stop panicked: ", r)
+				}
+			}()
+			_ = b.Mgr.Stop()
+			_ = b.Mgr.Shutdown()
+			done <- ""
+		}()
+		select {
+		case m := <-done:
+			if m != "" {
+				obs.OK = false
+				return obs, m
+			}
+		case <-time.After(10 * time.Second):
+			obs.OK = false
+			return obs, "Stop did not return"
+		}
+		b.ShutdownTopics()
+		b.Drop2()
 	}
 	return obs, ""
 }
@@ -541,13 +725,13 @@ func runWillRetained(path int) (*stallObs, string) {
 		return obs, msg
 	}
 	ver := mqttp.ProtocolV311
-	if path > 0 {
+	if path > 0 && path != 3 {
 		ver = mqttp.ProtocolV50
 	}
 	will := mqttp.NewPublish(ver)
 	_ = will.Set("will/r", []byte{7}, 1, true, false)
 	o := ConnectOpts{ID: "wr", Ver: ver, Clean: true, Will: will}
-	if path > 0 {
+	if path == 1 || path == 2 {
 		_ = will.PropertySet(mqttp.PropertyWillDelayInterval, uint32(1))
 		exp := uint32(30)
 		o.Expiry = &exp
@@ -583,7 +767,6 @@ func runWillRetained(path int) (*stallObs, string) {
 		b.Drop()
 		return obs, "the will was not published"
 	}
-	defer b.Drop()
 	// a subscriber that arrives afterwards
 	deadline = time.Now().Add(3 * time.Second)
 	for time.Now().Before(deadline) {
@@ -592,6 +775,24 @@ func runWillRetained(path int) (*stallObs, string) {
 		}
 		time.Sleep(5 * time.Millisecond)
 	}
+	if path >= 3 {
+		// ... after the broker has been restarted: the published Will is a retained message with QoS 1 like any other (C16)
+		pers := b.Persist
+		atomic.StoreInt32(&b.mgrDown, 1)
+		stopped := make(chan struct{})
+		go func() { _ = b.Mgr.Stop(); _ = b.Mgr.Shutdown(); b.ShutdownTopics(); close(stopped) }()
+		select {
+		case <-stopped:
+		case <-time.After(10 * time.Second):
+			return obs, "shutdown did not return"
+		}
+		b.Drop2()
+		if b, err = NewBroker(BrokerOpts{Preempt: true, Persist: pers}); err != nil {
+			return obs, "restart: " + err.Error()
+		}
+		time.Sleep(100 * time.Millisecond)
+	}
+	defer b.Drop()
 	lc := b.Dial()
 	if _, err := lc.Connect(ConnectOpts{ID: "late", Ver: mqttp.ProtocolV311, Clean: true}); err != nil {
 		return obs, "late subscriber: " + err.Error()
@@ -611,7 +812,7 @@ func runWillRetained(path int) (*stallObs, string) {
 	return obs, ""
 }
 
-func runWillAfterInvalidDisconnect() (*stallObs, string) {
+func runWillAfterInvalidDisconnect(variant int) (*stallObs, string) {
 	obs := &stallObs{}
 	b, err := NewBroker(BrokerOpts{Preempt: true})
 	if err != nil {
@@ -631,17 +832,26 @@ func runWillAfterInvalidDisconnect() (*stallObs, string) {
 	_ = will.Set("will/pe", []byte{9}, 0, false, false)
 	zero := uint32(0)
 	c := b.Dial()
-	if _, err := c.Connect(ConnectOpts{ID: "pe", Ver: mqttp.ProtocolV50, Clean: true, Expiry: &zero, Will: will}); err != nil {
+	exp := &zero
+	if variant == 2 {
+		exp = nil // no Session Expiry Interval in CONNECT means 0 as well
+	}
+	if _, err := c.Connect(ConnectOpts{ID: "pe", Ver: mqttp.ProtocolV50, Clean: true, Expiry: exp, Will: will}); err != nil {
 		return obs, "connect: " + err.Error()
 	}
 	a := c.Auto(false)
 	d := mqttp.NewDisconnect(mqttp.ProtocolV50)
-	_ = d.PropertySet(mqttp.PropertySessionExpiryInterval, uint32(5))
+	if variant == 1 {
+		// a valid DISCONNECT, but not a NORMAL one: only reason 0x00 discards the Will (MQTT 5, 3.1.2.5)
+		d.SetReasonCode(mqttp.CodeUnspecifiedError)
+	} else {
+		_ = d.PropertySet(mqttp.PropertySessionExpiryInterval, uint32(5))
+	}
 	_ = a.SendL(d)
 	obs.Closed = a.WaitFor(5*time.Second, func() bool { return a.closed })
 	obs.OK = w.WaitFor(3*time.Second, func() bool { return len(w.Pubs) >= 1 })
 	if !obs.OK {
-		return obs, "the connection was ended for a protocol error (the invalid DISCONNECT) and no Will was published"
+		return obs, "the connection was ended by something else than a normal DISCONNECT (a protocol error in it, a reason code other than 0x00) and no Will was published"
 	}
 	return obs, ""
 }
